@@ -15,4 +15,12 @@ theorem all_compile_sites_order_free : ∀ s ∈ sitesOf "C08", (classify s).map
 /-- no package-level variable of the compile-path packages is written outside `init` -/
 theorem no_compile_globals_written : ∀ s ∈ sitesOf "C08", s.kind ≠ "globalwrite" := by decide
 
+/-- one compilation is single-threaded: no `go` statement, WaitGroup or errgroup in the compile-path packages
+    (a goroutine inside a compile would need its own interleaving argument — none is given, so none is allowed) -/
+theorem no_compile_goroutines : ∀ s ∈ sitesOf "C08", s.kind ≠ "goroutine" := by decide
+
+/-- no function of the compile-path packages copies a package-level slice / map / pointer into a local and writes
+    through it -/
+theorem no_compile_alias_writes : ∀ s ∈ sitesOf "C08", s.kind ≠ "aliaswrite" := by decide
+
 end D2V.Fold
